@@ -80,7 +80,11 @@ def apply():
             itr = a[0]
             ok = not isinstance(itr, CrossHairValue)
         if ok:
-            items = list(itr)
+            with NoTracing():
+                # CPython copies the hash table of a real set/frozenset instance (subclasses included) WITHOUT calling its
+                # __iter__ — e.g. urllib3's HTTPHeaderDictItemView, a set subclass that only overrides __iter__, yields frozenset()
+                base = set if isinstance(itr, set) else (frozenset if isinstance(itr, frozenset) else None)
+            items = list(base.__iter__(itr)) if base is not None else list(itr)
             with NoTracing():
                 if all(concrete(x) for x in items):
                     return frozenset(items)
